@@ -93,7 +93,7 @@ def judgeLine (j : J) (op : String) (outs : List String) : J × List String :=
       | .createDatabase name =>
         let n := canon name
         -- a name that is not one plain directory name cannot be a database: refusing it is right
-        if !validDbName name then
+        if !validDbName name || name.isEmpty then
           (j, if out.startsWith "err" then [] else [vio j "sess:invalid-db-name-accepted" s!"op=[{short}]"])
         else
         if j.dbs.any (·.1 == n) then
@@ -102,7 +102,7 @@ def judgeLine (j : J) (op : String) (outs : List String) : J × List String :=
         else (j, [vio j "sess:create-db-refused" s!"got=[{out}] op=[{short}]"])
       | .use name =>
         let n := canon name
-        if !validDbName name then
+        if !validDbName name || name.isEmpty then
           (j, if out.startsWith "err" then [] else [vio j "sess:invalid-db-name-accepted" s!"op=[{short}]"])
         else
         if j.dbs.any (·.1 == n) then
